@@ -79,7 +79,7 @@ def first_expr_diff(a, b):
         k = i
         while k < len(s) and (s[k].isalnum() or s[k] == '_'):
             k += 1
-        return s[j:k] or '?'
+        return s[j:k] or ('None' if s[i:i + 1] == '-' else '?')
     return cls_at(a), cls_at(b)
 
 
@@ -172,5 +172,7 @@ def run(ctx):
         'read = Sourcefile.from_source(frontend=FP), write = Sourcefile.to_fortran() (default FortranStyle)',
         'structural export: node kinds, nesting, dataclass attributes (labels, names, flags, comment/pragma text), expression trees by '
         'class and constructor arguments, declared symbol attributes; exempt: Source objects, symbol tables, parent links',
+        'exempt: empty lines at the two ends of a text / empty-line comments at the end of an IR (the frontend strips the text it '
+        'reads); blanks inside pragma text (the backend re-assembles pragmas from their parameters)',
         'out of scope: sources with preprocessor directives (cpp needed) and sources the FP frontend rejects (both counted)',
     ]
